@@ -395,6 +395,7 @@ Section ObjE.
     intros L. unfold bd_push.
     destruct (bd_completed b); [split; [exact L|reflexivity]|].
     destruct (negb (bd_alloc b)); [split; [exact L|reflexivity]|].
+    destruct (ro_e oti <? lenN_ pl); [split; [exact L|reflexivity]|].
     cbv zeta. cbn [fst]. unfold C17Full.live_b. cbn [bd_init bd_size bd_completed bd_data].
     destruct L as (_ & S & _). auto.
   Qed.
@@ -465,6 +466,289 @@ Section ObjE.
     split; [exact S1|rewrite H1; reflexivity].
   Qed.
 End ObjE.
+
+(* ================= D47: the bytes HELD by the block decoders ================= *)
+(* Since the repair of D47 BlockDecoder::push discards a symbol longer than the encoding symbol length E before it
+   reaches any decoder.  What a block decoder holds is then bounded by the NOMINAL size k * E of its block:
+   every stored symbol has at most E bytes (Raptor pads up to ceil(block length / k) <= E), the stored ESIs are
+   distinct and below [max_syms], and the decoded block has at most k * E bytes - for the decoders that are
+   oracles of the model (Reed-Solomon with a missing source symbol, RaptorQ, Raptor) this is the hypothesis
+   [fec_out_ok] on the environment (reed_solomon_erasure / raptorq return k shards of E bytes, raptor_code the block
+   length it was created with). *)
+Definition fec_out_ok (E : env) : Prop :=
+  forall toi f sbn k e size sh d, e_fec E toi f sbn k e size sh = Some d -> lenN_ d <= k * e.
+
+(* number of distinct ESI values the payload id of a scheme can carry *)
+Definition esi_space (f : rfec) : N :=
+  match f with FNoCode | FRaptor | FRS28US => 65536 | FRS28 => 256 | FRaptorQ => 16777216 | FRS2M => 0 end.
+
+Lemma parse_pid_esi f bytes sbn esi sbl : parse_pid f bytes = Some (sbn, esi, sbl) -> esi < esi_space f.
+Proof.
+  destruct f; cbn [parse_pid esi_space]; try discriminate;
+    (destruct (Nat.eqb _ _); [|discriminate]); intros H; inversion H; apply N.mod_lt; discriminate.
+Qed.
+
+(* number of encoding symbols a block decoder of k source symbols may hold: No-Code keeps ESI < k, Reed-Solomon
+   ESI < k + parity; RaptorQ / Raptor keep every new ESI as long as the decoder has not answered *)
+Definition max_syms (oti : roti) (k : N) : N :=
+  match ro_fec oti with
+  | FNoCode => k
+  | FRS28 | FRS28US => k + ro_parity oti
+  | FRaptorQ => esi_space FRaptorQ
+  | FRaptor => esi_space FRaptor
+  | FRS2M => 0
+  end.
+
+Lemma block_length64_le_k al as_ nal l e sbn bl :
+  block_length64 al as_ nal l e sbn = Some bl -> bl <= (if sbn <? nal then al else as_) * e.
+Proof.
+  unfold block_length64, obind, cmul64, cadd64.
+  destruct (al * e <? U64); [|discriminate].
+  destruct (as_ * e <? U64); [|discriminate].
+  destruct (sbn + 1 <? U64); [|discriminate].
+  destruct (N.ltb_spec (sbn + 1) nal) as [H1|H1].
+  { intros H; inversion H. destruct (N.ltb_spec sbn nal); lia. }
+  destruct (N.eqb_spec (sbn + 1) nal) as [En|En].
+  - destruct (N.ltb_spec sbn nal) as [_|G]; [|lia].
+    destruct (nal * (al * e) <? U64); [|discriminate].
+    destruct (N.leb_spec (nal * (al * e)) l) as [L|L]; [intros H; inversion H; lia|].
+    unfold csub at 1. destruct (1 <=? nal); [|discriminate].
+    destruct ((nal - 1) * (al * e) <? U64); [|discriminate].
+    intros H. apply csub_le in H. nia.
+  - destruct (N.ltb_spec sbn nal) as [G|_]; [lia|].
+    destruct (nal * (al * e) <? U64); [|discriminate].
+    destruct (csub l (nal * (al * e))) as [l'|]; [|discriminate].
+    destruct (csub sbn nal) as [s|]; [|discriminate].
+    destruct (s + 1 <? U64); [|discriminate].
+    destruct ((s + 1) * (as_ * e) <? U64); [|discriminate].
+    destruct (N.leb_spec ((s + 1) * (as_ * e)) l') as [L|L]; [intros H; inversion H; lia|].
+    destruct (s * (as_ * e) <? U64); [|discriminate].
+    intros H. apply csub_le in H. nia.
+Qed.
+
+Lemma lenN_app_ (a b : list N) : lenN_ (a ++ b) = lenN_ a + lenN_ b.
+Proof. unfold lenN_. rewrite app_length. lia. Qed.
+
+Lemma lenN_pad_to t (x : list N) : lenN_ (pad_to t x) = N.max t (lenN_ x).
+Proof. unfold pad_to. rewrite lenN_app_. unfold lenN_ at 2. rewrite repeat_length. lia. Qed.
+
+Lemma raptor_symbol_size_le size k e : size <= k * e -> raptor_symbol_size size k <= e.
+Proof.
+  intros H. unfold raptor_symbol_size.
+  destruct (div_ceil_is_ceil size (N.max k 1) ltac:(lia)) as [_ C]. apply C. nia.
+Qed.
+
+Lemma get_esi_some i sh d : get_esi i sh = Some d -> exists p, In p sh /\ snd p = d.
+Proof.
+  unfold get_esi. destruct (find (fun p => fst p =? i) sh) as [p|] eqn:F; [|discriminate].
+  intros H; inversion H. apply find_some in F. exists p. split; [apply F|reflexivity].
+Qed.
+
+Lemma concat_src_len e sh : Forall (fun p : N * list N => lenN_ (snd p) <= e) sh ->
+  forall n i d, concat_src n i sh = Some d -> lenN_ d <= N.of_nat n * e.
+Proof.
+  intros F. induction n as [|n IH]; intros i d; cbn [concat_src].
+  - intros H; inversion H. unfold lenN_. cbn [length]. lia.
+  - destruct (get_esi i sh) as [d1|] eqn:G; [|discriminate].
+    destruct (concat_src n (i + 1) sh) as [r|] eqn:C; [|discriminate]. intros H; inversion H.
+    rewrite lenN_app_. specialize (IH _ _ C). destruct (get_esi_some _ _ _ G) as (p & Hp & <-).
+    rewrite Forall_forall in F. specialize (F p Hp). cbv beta in F. lia.
+Qed.
+
+Lemma nodup_bounded_len (l : list N) k : NoDup l -> (forall x, In x l -> x < k) -> N.of_nat (length l) <= k.
+Proof.
+  intros ND H. assert (L : (length l <= length (map N.of_nat (seq 0 (N.to_nat k))))%nat).
+  { apply NoDup_incl_length; [exact ND|]. intros x Hx. apply in_map_iff. exists (N.to_nat x). split; [lia|].
+    apply in_seq. specialize (H x Hx). lia. }
+  rewrite map_length, seq_length in L. lia.
+Qed.
+
+Lemma has_esi_false_notin esi sh : has_esi esi sh = false -> ~ In esi (map fst sh).
+Proof.
+  unfold has_esi. intros H C. apply in_map_iff in C. destruct C as (p & Hp & Hin).
+  assert (existsb (fun p => fst p =? esi) sh = true) by (apply existsb_exists; exists p; split; [exact Hin|apply N.eqb_eq; exact Hp]).
+  congruence.
+Qed.
+
+Lemma NoDup_snoc {A} (l : list A) x : NoDup l -> ~ In x l -> NoDup (l ++ [x]).
+Proof.
+  intros ND NI. induction ND as [|y l Hy ND IH]; cbn [app].
+  - constructor; [intros []|constructor].
+  - constructor.
+    + intros C. apply in_app_or in C. destruct C as [C|[C|[]]]; [contradiction|]. subst. apply NI. left. reflexivity.
+    + apply IH. intros C. apply NI. right. exact C.
+Qed.
+
+Lemma upd_nthb_length i f : forall l, length (upd_nthb i f l) = length l.
+Proof. revert i. intros i l. revert i. induction l as [|x l IH]; intros [|i]; cbn [upd_nthb length]; auto. Qed.
+
+Section HeldB.
+  Variable maxblk : N.
+
+  (* what a block decoder of an object announced with [oti] holds *)
+  Record held_b (oti : roti) (b : bdec) : Prop := mk_held {
+    hb_dead : bd_alloc b = false -> bd_shards b = [] /\ bd_data b = None;
+    hb_size : bd_size b <= bd_k b * ro_e oti;
+    hb_nom : bd_k b * ro_e oti <= maxblk;
+    hb_k1 : bd_alloc b = true -> ro_fec oti <> FNoCode -> 1 <= bd_k b;
+    hb_rs : bd_alloc b = true -> ro_fec oti = FRS28 \/ ro_fec oti = FRS28US -> bd_k b + ro_parity oti <= 256;
+    hb_len : Forall (fun p => lenN_ (snd p) <= ro_e oti) (bd_shards b);
+    hb_nodup : NoDup (map fst (bd_shards b));
+    hb_esi : Forall (fun p => fst p < max_syms oti (bd_k b)) (bd_shards b);
+    hb_data : forall d, bd_data b = Some d -> lenN_ d <= bd_k b * ro_e oti
+  }.
+
+  Lemma held_new oti : held_b oti bdec_new.
+  Proof.
+    constructor; cbn [bdec_new bd_alloc bd_shards bd_data bd_size bd_k map]; try discriminate; try constructor; try lia; auto.
+  Qed.
+
+  Lemma held_dealloc oti x : held_b oti x ->
+    held_b oti (mk_bdec (bd_completed x) (bd_init x) 0 (bd_k x) [] None false).
+  Proof.
+    intros H. constructor; cbn [bd_alloc bd_shards bd_data bd_size bd_k map]; try discriminate; try constructor; try lia; auto.
+    exact (hb_nom _ _ H).
+  Qed.
+
+  Lemma held_init oti k size b b' :
+    bd_init b = false -> bd_init_block oti k size b = Some b' ->
+    size <= k * ro_e oti -> k * ro_e oti <= maxblk -> held_b oti b'.
+  Proof.
+    intros Hi Hb Hs Hn. unfold bd_init_block in Hb. rewrite Hi in Hb.
+    assert (G : forall cpl, (ro_fec oti <> FNoCode -> 1 <= k) ->
+                (ro_fec oti = FRS28 \/ ro_fec oti = FRS28US -> k + ro_parity oti <= 256) ->
+                held_b oti (mk_bdec cpl true size k [] None true)).
+    { intros cpl K1 K2. constructor; cbn [bd_alloc bd_shards bd_data bd_size bd_k map]; try discriminate; try constructor; auto. }
+    destruct (ro_fec oti) eqn:Ef.
+    - inversion Hb. apply G; [congruence|intros [X|X]; discriminate X].
+    - unfold rs_ok in Hb. destruct (N.ltb_spec 0 k) as [K|K]; cbn [andb] in Hb; [|discriminate].
+      destruct (0 <? ro_parity oti); cbn [andb] in Hb; [|discriminate].
+      destruct (N.leb_spec (k + ro_parity oti) 256) as [K2|K2]; [|discriminate].
+      inversion Hb. apply G; [intros _; lia|intros _; exact K2].
+    - unfold rs_ok in Hb. destruct (N.ltb_spec 0 k) as [K|K]; cbn [andb] in Hb; [|discriminate].
+      destruct (0 <? ro_parity oti); cbn [andb] in Hb; [|discriminate].
+      destruct (N.leb_spec (k + ro_parity oti) 256) as [K2|K2]; [|discriminate].
+      inversion Hb. apply G; [intros _; lia|intros _; exact K2].
+    - discriminate.
+    - destruct (ro_scheme oti) as [[[z n] al]|]; [|discriminate].
+      destruct (ro_e oti =? 0); cbn [orb] in Hb; [discriminate|].
+      destruct (al =? 0); cbn [orb] in Hb; [discriminate|].
+      destruct (negb (ro_e oti mod al =? 0)); cbn [orb] in Hb; [discriminate|].
+      destruct (n =? 0); cbn [orb] in Hb; [discriminate|].
+      destruct (N.eqb_spec k 0) as [K|K]; cbn [orb] in Hb; [discriminate|].
+      destruct (RAPTORQ_KMAX <? k); [discriminate|].
+      inversion Hb. apply G; [intros _; lia|intros [X|X]; discriminate X].
+    - destruct (ro_scheme oti) as [x|]; [|discriminate].
+      destruct (N.eqb_spec k 0) as [K|K]; cbn [orb] in Hb; [discriminate|].
+      destruct (RAPTOR_KMAX <? k); [discriminate|].
+      inversion Hb. apply G; [intros _; lia|intros [X|X]; discriminate X].
+  Qed.
+
+  Lemma bd_push_held E toi oti sbn esi payload b :
+    fec_out_ok E -> held_b oti b -> esi < esi_space (ro_fec oti) ->
+    held_b oti (fst (bd_push E toi oti sbn esi payload b)).
+  Proof.
+    intros Hfec H Hesi. unfold bd_push.
+    destruct (bd_completed b); [exact H|].
+    destruct (bd_alloc b) eqn:Ea; cbn [negb]; [|exact H].
+    destruct (N.ltb_spec (ro_e oti) (lenN_ payload)) as [Hl|Hl]; [exact H|].
+    cbv zeta. cbn [fst].
+    set (accept := match ro_fec oti with
+                   | FNoCode => esi <? bd_k b
+                   | FRS28 | FRS28US => esi <? bd_k b + ro_parity oti
+                   | FRaptorQ => lenN_ payload =? ro_e oti
+                   | _ => true end).
+    set (pl := match ro_fec oti with FRaptor => pad_to (raptor_symbol_size (bd_size b) (bd_k b)) payload | _ => payload end).
+    set (done_ := match ro_fec oti, bd_data b with
+                  | (FRS28 | FRS28US | FRaptorQ | FRaptor), Some _ => true | _, _ => false end).
+    set (sh := if accept && negb (has_esi esi (bd_shards b)) && negb done_ then bd_shards b ++ [(esi, pl)] else bd_shards b).
+    assert (Hpl : lenN_ pl <= ro_e oti).
+    { unfold pl. destruct (ro_fec oti); try exact Hl. rewrite lenN_pad_to.
+      pose proof (raptor_symbol_size_le _ _ _ (hb_size _ _ H)). lia. }
+    assert (Hacc : accept = true -> esi < max_syms oti (bd_k b)).
+    { unfold accept, max_syms. destruct (ro_fec oti); intros X; try (apply N.ltb_lt in X; exact X); try exact Hesi. }
+    assert (S1 : Forall (fun p => lenN_ (snd p) <= ro_e oti) sh).
+    { unfold sh. destruct (accept && negb (has_esi esi (bd_shards b)) && negb done_); [|exact (hb_len _ _ H)].
+      apply Forall_app. split; [exact (hb_len _ _ H)|constructor; [exact Hpl|constructor]]. }
+    assert (S2 : NoDup (map fst sh)).
+    { unfold sh. destruct accept; cbn [andb]; [|exact (hb_nodup _ _ H)].
+      destruct (has_esi esi (bd_shards b)) eqn:Hh; cbn [negb andb]; [exact (hb_nodup _ _ H)|].
+      destruct (negb done_); [|exact (hb_nodup _ _ H)].
+      rewrite map_app. cbn [map fst]. apply NoDup_snoc; [exact (hb_nodup _ _ H)|apply has_esi_false_notin; exact Hh]. }
+    assert (S3 : Forall (fun p => fst p < max_syms oti (bd_k b)) sh).
+    { unfold sh. destruct accept; cbn [andb]; [|exact (hb_esi _ _ H)].
+      destruct (negb (has_esi esi (bd_shards b)) && negb done_); [|exact (hb_esi _ _ H)].
+      apply Forall_app. split; [exact (hb_esi _ _ H)|constructor; [exact (Hacc eq_refl)|constructor]]. }
+    clearbody sh.
+    constructor; cbn [bd_alloc bd_shards bd_data bd_size bd_k]; try discriminate; try assumption.
+    - exact (hb_size _ _ H).
+    - exact (hb_nom _ _ H).
+    - intros _. exact (hb_k1 _ _ H Ea).
+    - intros _. exact (hb_rs _ _ H Ea).
+    - intros d. destruct (bd_data b) as [d0|] eqn:Ed; [intros X; inversion X; subst d0; exact (hb_data _ _ H d Ed)|].
+      assert (C : forall d', concat_src (N.to_nat (bd_k b)) 0 sh = Some d' -> lenN_ d' <= bd_k b * ro_e oti).
+      { intros d' X. pose proof (concat_src_len _ _ S1 _ _ _ X). lia. }
+      destruct (ro_fec oti).
+      + destruct (count_lt (bd_k b) sh =? bd_k b); [apply C|discriminate].
+      + destruct (bd_k b <=? N.of_nat (length sh)); [|discriminate].
+        destruct (count_lt (bd_k b) sh =? bd_k b); [apply C|apply Hfec].
+      + destruct (bd_k b <=? N.of_nat (length sh)); [|discriminate].
+        destruct (count_lt (bd_k b) sh =? bd_k b); [apply C|apply Hfec].
+      + apply Hfec.
+      + apply Hfec.
+      + apply Hfec.
+  Qed.
+
+  (* ---- what the invariant gives in bytes ---- *)
+  Lemma sum_len_le e (sh : list (N * list N)) : Forall (fun p => lenN_ (snd p) <= e) sh ->
+    sumN' (map (fun p => lenN_ (snd p)) sh) <= N.of_nat (length sh) * e.
+  Proof.
+    unfold sumN'. induction 1 as [|p sh Hp _ IH]; cbn [map fold_right length]; [lia|].
+    rewrite Nat2N.inj_succ. lia.
+  Qed.
+
+  Lemma held_nb_syms oti b : held_b oti b -> N.of_nat (length (bd_shards b)) <= max_syms oti (bd_k b).
+  Proof.
+    intros H. rewrite <- (map_length fst). apply nodup_bounded_len; [exact (hb_nodup _ _ H)|].
+    intros x Hx. apply in_map_iff in Hx. destruct Hx as (p & <- & Hp).
+    pose proof (hb_esi _ _ H) as F. rewrite Forall_forall in F. exact (F p Hp).
+  Qed.
+
+  (* HELD <= multiple of the NOMINAL block size k * E: the stored symbols (at most max_syms of at most E bytes) and
+     the decoded block (at most k * E bytes); a deallocated decoder holds nothing *)
+  Theorem held_b_bytes oti b : held_b oti b ->
+    shard_bytes b <= (max_syms oti (bd_k b) + bd_k b) * ro_e oti
+    /\ (bd_alloc b = false -> shard_bytes b = 0).
+  Proof.
+    intros H. unfold shard_bytes. split.
+    - pose proof (sum_len_le _ _ (hb_len _ _ H)) as A. pose proof (held_nb_syms _ _ H) as B.
+      assert (D : match bd_data b with Some d => lenN_ d | None => 0 end <= bd_k b * ro_e oti).
+      { destruct (bd_data b) as [d|] eqn:Ed; [exact (hb_data _ _ H d Ed)|lia]. }
+      nia.
+    - intros Ha. destruct (hb_dead _ _ H Ha) as [-> ->]. reflexivity.
+  Qed.
+
+  (* the same in terms of the bound maxblk on the nominal block size: No-Code 2, Reed-Solomon 257 (k + parity <= 256
+     symbols and the block), RaptorQ 2^24 + 1, Raptor 2^16 + 1 (one symbol per ESI of the payload id, and the block) *)
+  Definition held_mult (f : rfec) : N :=
+    match f with FNoCode => 2 | FRS28 | FRS28US => 257 | FRaptorQ => 16777217 | FRaptor => 65537 | FRS2M => 1 end.
+
+  Theorem held_b_cfg oti b : held_b oti b -> shard_bytes b <= held_mult (ro_fec oti) * maxblk.
+  Proof.
+    intros H. destruct (held_b_bytes oti b H) as [A Z].
+    destruct (bd_alloc b) eqn:Ea; [|rewrite (Z eq_refl); lia].
+    pose proof (hb_nom _ _ H) as Nm. pose proof (hb_k1 _ _ H Ea) as K1. pose proof (hb_rs _ _ H Ea) as K2.
+    unfold max_syms, held_mult in *. destruct (ro_fec oti); cbn [esi_space] in *.
+    - nia.
+    - specialize (K1 ltac:(discriminate)). specialize (K2 (or_introl eq_refl)).
+      assert (ro_e oti <= bd_k b * ro_e oti) by nia. nia.
+    - specialize (K1 ltac:(discriminate)). specialize (K2 (or_intror eq_refl)).
+      assert (ro_e oti <= bd_k b * ro_e oti) by nia. nia.
+    - nia.
+    - specialize (K1 ltac:(discriminate)). assert (ro_e oti <= bd_k b * ro_e oti) by nia. nia.
+    - specialize (K1 ltac:(discriminate)). assert (ro_e oti <= bd_k b * ro_e oti) by nia. nia.
+  Qed.
+End HeldB.
 
 Section ObjW.
   Variable E : env.
@@ -683,20 +967,379 @@ Section ObjW.
       pose proof (W_push_from_cache o6 c6 W6) as W7. destruct (push_from_cache E o6 c6) as [o7 c7]. exact W7.
   Qed.
 
+  (* ---- D47: what the block decoders of an object hold ---- *)
+  Notation held_b := (held_b maxblk).
+  Definition HBo (oti : roti) (o : objrecv) : Prop :=
+    Forall (held_b oti) (r_blocks o) /\ (length (r_blocks o) <= 4097)%nat.
+  (* no block exists before the OTI is known *)
+  Definition HB (o : objrecv) : Prop :=
+    match r_oti o with None => r_blocks o = [] | Some oti => HBo oti o end.
+
+  Lemma HBo_nil oti o : r_blocks o = [] -> HBo oti o.
+  Proof. intros H. unfold HBo. rewrite H. split; [constructor|cbn; lia]. Qed.
+  Lemma HB_of_nil o : r_blocks o = [] -> HB o.
+  Proof. intros H. unfold HB. destruct (r_oti o); [apply HBo_nil; exact H|exact H]. Qed.
+  Lemma hdr_oti o o' : hdr o' = hdr o -> r_oti o' = r_oti o.
+  Proof. unfold hdr. intros H. inversion H. reflexivity. Qed.
+
+  Lemma complete_nil o c : r_blocks (fst (complete o c)) = [] /\ hdr (fst (complete o c)) = hdr o.
+  Proof. unfold complete. destruct (r_writer o) as [[w ws]|]; cbn [fst]; split; reflexivity. Qed.
+  Lemma error_nil o i c : r_blocks (fst (error o i c)) = [] /\ hdr (fst (error o i c)) = hdr o.
+  Proof. unfold error. destruct (r_writer o) as [[w ws]|]; cbn [fst]; split; reflexivity. Qed.
+  Lemma HB_error o i c : HB (fst (error o i c)).
+  Proof. apply HB_of_nil. apply error_nil. Qed.
+
+  Lemma HBo_set_tl oti o off nb sz bw : HBo oti o -> HBo oti (set_blocks o (tl (r_blocks o)) off nb sz bw).
+  Proof.
+    intros [F L]. unfold HBo. cbn [set_blocks r_blocks]. destruct (r_blocks o) as [|x l]; cbn [tl length] in *; [split; [constructor|lia]|].
+    inversion F; subst. split; [assumption|lia].
+  Qed.
+  Lemma HBo_set_dealloc oti o idx off nb sz bw : HBo oti o ->
+    HBo oti (set_blocks o (upd_nthb idx (fun x => mk_bdec (bd_completed x) (bd_init x) 0 (bd_k x) [] None false) (r_blocks o)) off nb sz bw).
+  Proof.
+    intros [F L]. unfold HBo. cbn [set_blocks r_blocks]. rewrite upd_nthb_length. split; [|exact L].
+    apply Forall_upd with (d := bdec_new); [exact F|]. intros Hi. apply held_dealloc. apply Forall_nth; assumption.
+  Qed.
+
+  Lemma HBo_write_blocks oti : forall fuel sbn o c, HBo oti o ->
+    HBo oti (res_obj (fst (write_blocks E fuel sbn o c))) /\ hdr (res_obj (fst (write_blocks E fuel sbn o c))) = hdr o.
+  Proof.
+    induction fuel as [|f IH]; intros sbn o c A;
+      assert (Same : HBo oti o /\ hdr o = hdr o) by (split; [exact A|reflexivity]);
+      cbn [write_blocks fst res_obj]; [exact Same|].
+    destruct (r_writer o) as [[w ws]|]; [|exact Same].
+    destruct ws; try exact Same.
+    destruct (r_bw o) as [bw|]; [|exact Same].
+    destruct ((r_off o <=? sbn) && (sbn - r_off o <? N.of_nat (length (r_blocks o)))) eqn:Hc; [|exact Same].
+    destruct (bd_completed (nth (N.to_nat (sbn - r_off o)) (r_blocks o) bdec_new)) eqn:Hcomp; cbn [negb]; [|exact Same].
+    destruct (bw_write E w sbn _ bw c) as [[| bw' | |] c1] eqn:Hbw; cbn [fst res_obj]; try exact Same.
+    destruct (Nat.eqb (N.to_nat (sbn - r_off o)) 0) eqn:Ei; cbv zeta beta iota;
+    match goal with |- context [set_blocks o ?a ?b ?d ?e ?g] => set (o1 := set_blocks o a b d e g) end;
+    (assert (A1 : HBo oti o1) by (unfold o1; first [apply HBo_set_tl|apply HBo_set_dealloc]; exact A));
+    assert (H1 : hdr o1 = hdr o) by reflexivity;
+    destruct (bw_left bw' =? 0).
+    all: try (destruct (IH (sbn + 1) o1 c1 A1) as [I1 I2]; split; [exact I1|rewrite I2; exact H1]).
+    all: destruct (match r_md5 o1, bw_md5 bw' with Some want, Some got => eqb_bytes want got | _, _ => true end).
+    all: try (destruct (complete_nil o1 c1) as [K1 K2]; destruct (complete o1 c1) as [o2 c2];
+              cbn [fst res_obj] in *; split; [apply HBo_nil; exact K1|rewrite K2; exact H1]).
+    all: try (destruct (error_nil o1 false c1) as [K1 K2]; destruct (error o1 false c1) as [o2 c2];
+              cbn [fst res_obj] in *; split; [apply HBo_nil; exact K1|rewrite K2; exact H1]).
+  Qed.
+
+  Lemma init_res_held o oti tlen sbn sbl b b1 nb sz :
+    pok o -> r_oti o = Some oti ->
+    (forall v, sbl = Some v -> ro_fec oti = FRS28US /\ v <= smax) ->
+    (sbl = None -> ro_fec oti <> FRS28US) ->
+    held_b oti b ->
+    init_res_of o oti tlen sbn sbl b = Some (Some (b1, nb, sz)) -> held_b oti b1.
+  Proof.
+    intros PK Eo Hs Hn Hb. unfold init_res_of.
+    destruct (bd_init b) eqn:Hi; [intros H; inversion H; subst; exact Hb|].
+    cbv zeta.
+    set (k := match sbl with Some v => v | None => if sbn <? r_nal o then r_al o else r_as o end).
+    destruct (match sbl with Some _ => Some (k * ro_e oti)
+                           | None => block_length64 (r_al o) (r_as o) (r_nal o) tlen (ro_e oti) sbn end) as [bl|] eqn:Ebl;
+      [|discriminate].
+    assert (Hbl : bl <= k * ro_e oti).
+    { destruct sbl as [v|]; [inversion Ebl; lia|]. apply block_length64_le_k in Ebl. exact Ebl. }
+    assert (Hk : k * ro_e oti <= maxblk).
+    { unfold C17Full.pok in PK. rewrite Eo in PK. destruct PK as (OK & Al & As). unfold oti_ok in OK.
+      destruct sbl as [v|].
+      - destruct (Hs v eq_refl) as [Hf Hv]. rewrite Hf in OK. apply N.leb_le in OK. unfold k. nia.
+      - specialize (Hn eq_refl).
+        assert (OK' : ro_b oti * ro_e oti <= maxblk) by (destruct (ro_fec oti); try congruence; apply N.leb_le; exact OK).
+        unfold k. destruct (sbn <? r_nal o); nia. }
+    destruct ((2 <=? r_nb_alloc o) && (r_max o <? r_alloc_size o + bl)); [discriminate|].
+    destruct (bd_init_block oti k bl b) as [b'|] eqn:Eib; [|discriminate].
+    intros H; inversion H; subst b1 nb sz; clear H.
+    exact (held_init maxblk oti k bl b b' Hi Eib Hbl Hk).
+  Qed.
+
+  Lemma HBo_push_to_block2 oti p o c :
+    fec_out_ok E -> pok o -> r_oti o = Some oti -> pkt_sbl p <= smax -> HBo oti o ->
+    HBo oti (res_obj (fst (push_to_block2 E p o c))) /\ hdr (res_obj (fst (push_to_block2 E p o c))) = hdr o.
+  Proof.
+    intros Hfec PK Eo HP A.
+    assert (Same : HBo oti o /\ hdr o = hdr o) by (split; [exact A|reflexivity]).
+    unfold push_to_block2. rewrite Eo.
+    destruct (r_tlen o) as [tlen|]; [|exact Same].
+    destruct (a_pid_with (ro_fec oti) p) as [[[sbn esi] sbl]|] eqn:Epid; [|exact Same].
+    destruct (tlen =? 0).
+    { destruct (r_writer o); [|exact Same].
+      destruct (complete_nil o c) as [K1 K2]. destruct (complete o c) as [o1 c1]. cbn [fst res_obj] in *.
+      split; [apply HBo_nil; exact K1|exact K2]. }
+    destruct (sbn <? r_off o); [exact Same|].
+    destruct (match sbl with None => nb_blocks_of oti tlen <=? sbn | Some _ => false end); [exact Same|].
+    cbv zeta.
+    set (off := sbn - r_off o).
+    destruct ((N.of_nat (length (r_blocks o)) <=? off) && (4096 <? off)) eqn:Ebig; [split; [exact A|reflexivity]|].
+    set (bl0 := if N.of_nat (length (r_blocks o)) <=? off
+                then r_blocks o ++ repeat bdec_new (N.to_nat off + 1 - length (r_blocks o)) else r_blocks o).
+    set (o0 := set_blocks o bl0 (r_off o) (r_nb_alloc o) (r_alloc_size o) (r_bw o)).
+    assert (A0 : HBo oti o0).
+    { destruct A as [F L]. unfold HBo, o0, bl0. cbn [set_blocks r_blocks].
+      destruct (N.leb_spec (N.of_nat (length (r_blocks o))) off) as [G|G]; [|split; assumption].
+      cbn [andb] in Ebig. apply N.ltb_ge in Ebig.
+      split; [apply Forall_app; split; [exact F|apply Forall_repeat; apply held_new]|].
+      rewrite app_length, repeat_length. lia. }
+    assert (Hidx : (N.to_nat off < length bl0)%nat).
+    { unfold bl0. destruct (N.leb_spec (N.of_nat (length (r_blocks o))) off); rewrite ?app_length, ?repeat_length; lia. }
+    set (b := nth (N.to_nat off) bl0 bdec_new).
+    assert (Bh : held_b oti b) by (apply Forall_nth; [apply A0|exact Hidx]).
+    destruct (bd_completed b) eqn:Ecomp. { cbn [fst res_obj]. split; [exact A0|reflexivity]. }
+    match goal with |- context [match ?x with None => _ | Some _ => _ end] =>
+      change x with (init_res_of o oti tlen sbn sbl b) end.
+    destruct (init_res_of o oti tlen sbn sbl b) as [[[[b1 nb] sz]|]|] eqn:Eir;
+      [|cbn [fst res_obj]; split; [exact A0|reflexivity] ..].
+    assert (Hs : forall v, sbl = Some v -> ro_fec oti = FRS28US /\ v <= smax).
+    { intros v ->. unfold a_pid_with in Epid. destruct (parse_pid_sbl _ _ _ _ _ Epid) as [Hf Hp].
+      split; [exact Hf|]. unfold pkt_sbl in HP. rewrite Hp in HP. exact HP. }
+    assert (Hn : sbl = None -> ro_fec oti <> FRS28US).
+    { intros ->. unfold a_pid_with in Epid. eapply parse_pid_nosbl; exact Epid. }
+    pose proof (init_res_held o oti tlen sbn sbl b b1 nb sz PK Eo Hs Hn Bh Eir) as H1.
+    assert (Hesi : esi < esi_space (ro_fec oti)) by (unfold a_pid_with in Epid; eapply parse_pid_esi; exact Epid).
+    pose proof (bd_push_held maxblk E (r_toi o) oti sbn esi (a_payload p) b1 Hfec H1 Hesi) as H2.
+    destruct (bd_push E (r_toi o) oti sbn esi (a_payload p) b1) as [b2 pan]. cbn [fst] in H2.
+    set (o1 := set_blocks o0 (upd_nthb (N.to_nat off) (fun _ => b2) bl0) (r_off o) nb sz (r_bw o)).
+    assert (A1 : HBo oti o1).
+    { destruct A0 as [F L]. cbn [o0 set_blocks r_blocks] in F, L. unfold HBo, o1. cbn [set_blocks r_blocks].
+      rewrite upd_nthb_length. split; [|exact L].
+      apply Forall_upd with (d := bdec_new); [exact F|intros _; exact H2]. }
+    destruct (bd_completed b2); [|cbn [fst res_obj]; split; [exact A1|reflexivity]].
+    destruct (HBo_write_blocks oti (S (length (r_blocks o1))) sbn o1 (if pan then panicc c else c) A1) as [S1 H1'].
+    split; [exact S1|rewrite H1'; reflexivity].
+  Qed.
+
+  Lemma HBo_push_to_block oti p o c :
+    fec_out_ok E -> pok o -> r_oti o = Some oti -> pkt_sbl p <= smax -> HBo oti o ->
+    HBo oti (res_obj (fst (push_to_block E p o c))) /\ hdr (res_obj (fst (push_to_block E p o c))) = hdr o.
+  Proof.
+    intros Hfec PK Eo Hp A. unfold push_to_block. destruct (HBo_push_to_block2 oti p o c Hfec PK Eo Hp A) as [S1 H1].
+    destruct (push_to_block2 E p o c) as [[o1|o1] c1]; cbn [fst res_obj] in *; [|split; assumption].
+    destruct (a_close_obj p); [|split; assumption].
+    destruct (r_state o1); try (split; assumption).
+    destruct (r_writer o1); [|split; assumption].
+    destruct (error_nil o1 true c1) as [K1 K2]. destruct (error o1 true c1) as [o2 c2].
+    cbn [fst res_obj] in *. split; [apply HBo_nil; exact K1|rewrite K2; exact H1].
+  Qed.
+
+  Lemma HBo_drain_cache oti : forall cache o c, fec_out_ok E ->
+    Forall (fun p => pkt_sbl p <= smax) cache -> pok o -> r_oti o = Some oti -> HBo oti o ->
+    HBo oti (fst (drain_cache E cache o c)) /\ hdr (fst (drain_cache E cache o c)) = hdr o.
+  Proof.
+    induction cache as [|p rest IH]; intros o c Hfec Fc PK Eo A; cbn [drain_cache fst]; [split; [exact A|reflexivity]|].
+    set (o0 := mk_or _ _ _ rest _ _ _ _ _ _ _ _ _ _ _ _ _ _ _ _ _ _).
+    inversion Fc as [|? ? Hp Fr]; subst.
+    assert (A0 : HBo oti o0) by exact A.
+    assert (PK0 : pok o0) by exact PK.
+    assert (Eo0 : r_oti o0 = Some oti) by exact Eo.
+    destruct (HBo_push_to_block oti p o0 c Hfec PK0 Eo0 Hp A0) as [S1 H1].
+    assert (PK1 := pok_hdr _ _ _ _ H1 PK0). pose proof (hdr_oti _ _ H1) as Eo1. rewrite Eo0 in Eo1.
+    change (hdr o0) with (hdr o) in H1.
+    destruct (push_to_block E p o0 c) as [[o1|o1] c1]; cbn [fst res_obj] in *.
+    - destruct (r_cache o1) as [|x xs] eqn:Ec; cbn [fst]; [split; [exact S1|exact H1]|].
+      destruct (IH o1 c1 Hfec Fr PK1 Eo1 S1) as [I1 I2]. split; [exact I1|rewrite I2; exact H1].
+    - destruct (error_nil o1 false c1) as [K1 K2]. split; [apply HBo_nil; exact K1|rewrite K2; exact H1].
+  Qed.
+
+  Lemma HB_push_from_cache o c : fec_out_ok E -> pok o -> cpk o -> HB o ->
+    HB (fst (push_from_cache E o c)) /\ hdr (fst (push_from_cache E o c)) = hdr o.
+  Proof.
+    intros Hfec PK CP H. unfold push_from_cache, cache_replay_blocked.
+    destruct (r_oti o) as [oti|] eqn:Eo; [|cbn [fst]; split; [exact H|reflexivity]].
+    destruct ((nb_block o =? 0) && negb match r_tlen o with Some 0 => true | _ => false end); [cbn [fst]; split; [exact H|reflexivity]|].
+    assert (A : HBo oti o) by (unfold HB in H; rewrite Eo in H; exact H).
+    destruct (HBo_drain_cache oti (r_cache o) o c Hfec CP PK Eo A) as [S1 H1].
+    destruct (drain_cache E (r_cache o) o c) as [o1 c1]. cbn [fst] in *.
+    split; [|exact H1]. pose proof (hdr_oti _ _ H1) as Eo1. rewrite Eo in Eo1.
+    unfold HB. cbn [r_oti r_blocks]. rewrite Eo1. exact S1.
+  Qed.
+
+  Lemma HB_init_partition o : HB o -> HB (init_partition o).
+  Proof.
+    intros H. unfold init_partition. destruct (0 <? nb_block o) eqn:Hnb; [exact H|].
+    destruct (r_oti o) as [oti|] eqn:Eo; [|exact H]. destruct (r_tlen o) as [tl|]; [|exact H].
+    destruct (block_partitioning (ro_b oti) tl (ro_e oti)) as [[[al as_] nal] n].
+    unfold HB. cbn [r_oti]. unfold HBo. cbn [r_blocks]. split; [apply Forall_repeat; apply held_new|].
+    rewrite repeat_length. lia.
+  Qed.
+
+  Lemma HB_init_writer o c : HB o -> HB (fst (init_writer E o c)).
+  Proof.
+    intros H. unfold init_writer. destruct (r_writer o); [exact H|].
+    destruct (r_fdt_id o); [|exact H]. destruct (r_cenc o); [|exact H].
+    destruct (r_tlen o); [|exact H]. destruct (r_oti o) eqn:Eo; [|exact H].
+    cbv zeta.
+    destruct (e_builder E (r_toi o) (ncalls c (r_toi o))); cbn [fst];
+      [|unfold HB in *; cbn [set_state r_oti r_blocks]; rewrite Eo in *; exact H ..].
+    match goal with |- context [e_open_ok E ?w] => destruct (e_open_ok E w) end; cbn [negb].
+    - cbn [fst]. unfold HB in *. cbn [r_oti r_blocks]. rewrite Eo in *. exact H.
+    - apply HB_error.
+  Qed.
+
+  Lemma HB_write_blocks fuel sbn o c : HB o -> HB (res_obj (fst (write_blocks E fuel sbn o c))).
+  Proof.
+    intros H. destruct (r_oti o) as [oti|] eqn:Eo.
+    - assert (A : HBo oti o) by (unfold HB in H; rewrite Eo in H; exact H).
+      destruct (HBo_write_blocks oti fuel sbn o c A) as [S1 H1]. pose proof (hdr_oti _ _ H1) as Eo1. rewrite Eo in Eo1.
+      unfold HB. rewrite Eo1. exact S1.
+    - assert (Hn : r_blocks o = []) by (unfold HB in H; rewrite Eo in H; exact H).
+      assert (R : fst (write_blocks E fuel sbn o c) = ROk o).
+      { apply write_blocks_dormant. rewrite Hn. constructor. }
+      rewrite R. exact H.
+  Qed.
+
+  (* ---- ObjectReceiver::push ---- *)
+  Theorem HB_or_push p o c :
+    fec_out_ok E -> W o -> HB o -> pkt_sbl p <= smax ->
+    (forall oti l, a_oti p = Some (oti, l) -> oti_ok maxblk smax oti = true) ->
+    HB (fst (or_push E p o c)).
+  Proof.
+    intros Hfec WO HO Hp Hoti. unfold or_push. destruct (r_state o) eqn:Est; try exact HO.
+    assert (G0 : forall o1, W o1 /\ HB o1 ->
+      HB (fst (let o2 := init_partition o1 in
+              let (o3, c3) := init_writer E o2 c in
+              match r_state o3 with
+              | Receiving =>
+                let (o4, c4) := push_from_cache E o3 c3 in
+                match r_state o4 with
+                | Receiving =>
+                match r_oti o4 with
+                | None =>
+                  if r_max o4 <=? r_cache_size o4 then error o4 false c4
+                  else (mk_or (r_state o4) (r_toi o4) (r_oti o4) (r_cache o4 ++ [p]) (r_cache_size o4 + a_datalen p) (r_max o4) (r_blocks o4)
+                              (r_off o4) (r_tlen o4) (r_cenc o4) (r_md5 o4) (r_md5chk o4) (r_al o4) (r_as o4) (r_nal o4)
+                              (r_writer o4) (r_bw o4) (r_fdt_id o4) (r_nb_alloc o4) (r_alloc_size o4) (r_clen o4) (r_nocache o4), c4)
+                | Some _ =>
+                  match push_to_block E p o4 c4 with
+                  | (ROk o5, c5) => (o5, c5)
+                  | (RErr o5, c5) => error o5 false c5
+                  end
+                end
+                | _ => (o4, c4)
+                end
+              | _ => (o3, c3)
+              end))).
+    2: { assert (W1 : forall o1, r_state o1 = r_state o -> r_max o1 = r_max o -> r_cache o1 = r_cache o ->
+                      r_blocks o1 = r_blocks o -> r_alloc_size o1 = r_alloc_size o -> r_nb_alloc o1 = r_nb_alloc o ->
+                      r_al o1 = r_al o -> r_as o1 = r_as o ->
+                      (r_oti o1 = r_oti o \/ (r_oti o = None /\ exists ot l, a_oti p = Some (ot, l) /\ r_oti o1 = Some ot)) ->
+                      W o1 /\ HB o1).
+         { intros o1 E1 E2 E3 E4 E5 E6 E7 E8 E9. destruct WO as (S & PK & CP). split.
+           - split; [|split].
+             + destruct S as [A|[D B]]; [|destruct D as (D1 & _); congruence].
+               left. destruct A as (F & Sz & Cn & K). unfold C17Full.acct. rewrite E4, E5, E6, E2. auto.
+             + unfold C17Full.pok in *. rewrite E7, E8. destruct E9 as [E9|(E9 & ot & l & Ea & E9')].
+               * rewrite E9. exact PK.
+               * rewrite E9', E9 in *. destruct PK as [-> ->]. split; [exact (Hoti ot l Ea)|lia].
+             + unfold cpk in *. rewrite E3. exact CP.
+           - unfold HB. unfold HB in HO. destruct E9 as [E9|(E9 & ot & l & Ea & E9')].
+             + rewrite E9. destruct (r_oti o); [unfold HBo in *; rewrite E4; exact HO|rewrite E4; exact HO].
+             + rewrite E9'. rewrite E9 in HO. apply HBo_nil. rewrite E4. exact HO. }
+         destruct (r_oti o) as [x|] eqn:Eo; destruct (a_oti p) as [[ot l]|] eqn:Ea; cbv zeta beta iota;
+           apply G0; apply W1; try reflexivity; try (symmetry; exact Est).
+         all: first [left; reflexivity|right; split; [reflexivity|exists ot, l; split; reflexivity]]. }
+    intros o1 [W1 H1]. cbv zeta.
+    pose proof (W_init_partition o1 W1) as W2. pose proof (HB_init_partition o1 H1) as H2. set (o2 := init_partition o1) in *.
+    pose proof (W_init_writer o2 c W2) as W3. pose proof (HB_init_writer o2 c H2) as H3.
+    destruct (init_writer E o2 c) as [o3 c3]. cbn [fst] in W3, H3.
+    destruct (r_state o3); cbn [fst]; try exact H3.
+    pose proof (W_push_from_cache o3 c3 W3) as W4.
+    destruct W3 as (S3 & PK3 & CP3). destruct (HB_push_from_cache o3 c3 Hfec PK3 CP3 H3) as [H4 _].
+    destruct (push_from_cache E o3 c3) as [o4 c4]. cbn [fst] in W4, H4.
+    destruct (r_state o4) eqn:E4; cbn [fst]; try exact H4.
+    destruct (r_oti o4) as [oti|] eqn:Eo4.
+    - destruct W4 as (S4 & PK4 & CP4).
+      assert (A4 : HBo oti o4) by (unfold HB in H4; rewrite Eo4 in H4; exact H4).
+      destruct (HBo_push_to_block oti p o4 c4 Hfec PK4 Eo4 Hp A4) as [S5 H5].
+      pose proof (hdr_oti _ _ H5) as Eo5. rewrite Eo4 in Eo5.
+      destruct (push_to_block E p o4 c4) as [[o5|o5] c5]; cbn [fst res_obj] in *; [|apply HB_error].
+      unfold HB. rewrite Eo5. exact S5.
+    - destruct (r_max o4 <=? r_cache_size o4); [apply HB_error|].
+      cbn [fst]. unfold HB in *. cbn [r_oti r_blocks]. rewrite Eo4 in *. exact H4.
+  Qed.
+
+  (* ---- ObjectReceiver::attach_fdt ---- *)
+  Theorem HB_or_attach id files ioti o c :
+    fec_out_ok E -> W o -> HB o ->
+    forallb (fun f => ooti_ok maxblk smax (ff_oti f)) files = true -> ooti_ok maxblk smax ioti = true ->
+    HB (snd (fst (or_attach E id files ioti o c))).
+  Proof.
+    intros Hfec WO HO Hf Hi. unfold or_attach. destruct (r_fdt_id o); [exact HO|].
+    destruct (find _ files) as [f|] eqn:Efind; [|exact HO].
+    assert (Hff : ooti_ok maxblk smax (ff_oti f) = true).
+    { apply find_some in Efind. rewrite forallb_forall in Hf. apply Hf. apply Efind. }
+    assert (G0 : forall o1, W o1 /\ HB o1 ->
+      HB (snd (fst (let o2 := init_partition o1 in
+                   let (o3, c3) := init_writer E o2 c in
+                   let (o4, c4) := push_from_cache E o3 c3 in
+                   let '(o5, c5) := match write_blocks E (S (length (r_blocks o4))) 0 o4 c4 with
+                                    | (ROk x, cx) => (x, cx)
+                                    | (RErr x, cx) => error x false cx
+                                    end in
+                   let (o6, c6) := push_from_cache E o5 c5 in
+                   (true, o6, c6))))).
+    2: { assert (W1 : forall o1, r_state o1 = r_state o -> r_max o1 = r_max o -> r_cache o1 = r_cache o ->
+                      r_blocks o1 = r_blocks o -> r_alloc_size o1 = r_alloc_size o -> r_nb_alloc o1 = r_nb_alloc o ->
+                      r_al o1 = r_al o -> r_as o1 = r_as o ->
+                      (r_oti o1 = r_oti o \/ (r_oti o = None /\ exists ot, oti_ok maxblk smax ot = true /\ r_oti o1 = Some ot)) ->
+                      W o1 /\ HB o1).
+         { intros o1 E1 E2 E3 E4 E5 E6 E7 E8 E9. destruct WO as (S & PK & CP). split.
+           - split; [|split].
+             + destruct S as [A|[(D1 & D2 & D3) B]].
+               * left. destruct A as (F & Sz & Cn & K). unfold C17Full.acct. rewrite E4, E5, E6, E2. auto.
+               * right. split; [split; [congruence|split; [congruence|rewrite E4; exact D3]]|].
+                 unfold C17Full.bnd in *. rewrite E5, E2. exact B.
+             + unfold C17Full.pok in *. rewrite E7, E8. destruct E9 as [E9|(E9 & ot & Ok & E9')].
+               * rewrite E9. exact PK.
+               * rewrite E9', E9 in *. destruct PK as [-> ->]. split; [exact Ok|lia].
+             + unfold cpk in *. rewrite E3. exact CP.
+           - unfold HB. unfold HB in HO. destruct E9 as [E9|(E9 & ot & Ok & E9')].
+             + rewrite E9. destruct (r_oti o); [unfold HBo in *; rewrite E4; exact HO|rewrite E4; exact HO].
+             + rewrite E9'. rewrite E9 in HO. apply HBo_nil. rewrite E4. exact HO. }
+         destruct (r_oti o) as [x|] eqn:Eo;
+           [|destruct (match ff_oti f with Some x => Some x | None => ioti end) as [x|] eqn:Ex];
+           cbv zeta beta iota;
+           apply G0; apply W1; try reflexivity.
+         - left. reflexivity.
+         - right. split; [reflexivity|]. exists x. split; [|reflexivity].
+           destruct (ff_oti f) as [y|]; [inversion Ex; subst; exact Hff|subst ioti; exact Hi].
+         - left. reflexivity. }
+    intros o1 [W1 H1]. cbv zeta.
+    pose proof (W_init_partition o1 W1) as W2. pose proof (HB_init_partition o1 H1) as H2. set (o2 := init_partition o1) in *.
+    pose proof (W_init_writer o2 c W2) as W3. pose proof (HB_init_writer o2 c H2) as H3.
+    destruct (init_writer E o2 c) as [o3 c3]. cbn [fst] in W3, H3.
+    pose proof (W_push_from_cache o3 c3 W3) as W4.
+    destruct (HB_push_from_cache o3 c3 Hfec (proj1 (proj2 W3)) (proj2 (proj2 W3)) H3) as [H4 _].
+    destruct (push_from_cache E o3 c3) as [o4 c4]. cbn [fst] in W4, H4.
+    pose proof (W_write_blocks (S (length (r_blocks o4))) 0 o4 c4 W4) as W5.
+    pose proof (HB_write_blocks (S (length (r_blocks o4))) 0 o4 c4 H4) as H5.
+    destruct (write_blocks E (S (length (r_blocks o4))) 0 o4 c4) as [[o5|o5] c5]; cbn [fst res_obj] in W5, H5.
+    - destruct (HB_push_from_cache o5 c5 Hfec (proj1 (proj2 W5)) (proj2 (proj2 W5)) H5) as [H6 _].
+      destruct (push_from_cache E o5 c5) as [o6 c6]. exact H6.
+    - pose proof (W_error o5 false c5 W5) as W6. pose proof (HB_error o5 false c5) as H6.
+      destruct (error o5 false c5) as [o6 c6]. cbn [fst] in W6, H6.
+      destruct (HB_push_from_cache o6 c6 Hfec (proj1 (proj2 W6)) (proj2 (proj2 W6)) H6) as [H7 _].
+      destruct (push_from_cache E o6 c6) as [o7 c7]. exact H7.
+  Qed.
+
   (* ---- the object invariant of the receiver level ---- *)
-  Definition G (o : objrecv) : Prop := cache_ok maxpkt o /\ W o.
+  (* the held-bytes invariant HB is kept under the hypothesis fec_out_ok on the decoder oracle only: the accounting
+     part (P_C17_bounds) does not need it *)
+  Definition G (o : objrecv) : Prop := cache_ok maxpkt o /\ W o /\ (fec_out_ok E -> HB o).
 
   Lemma G_new toi mx : G (or_new toi mx).
   Proof.
-    split; [apply cache_ok_new|]. split; [|split].
+    split; [apply cache_ok_new|]. split; [split; [|split]|].
     - left. unfold C17Full.acct, or_new. cbn. split; [constructor|]. repeat split. right. lia.
     - unfold C17Full.pok. cbn. auto.
     - constructor.
+    - intros _. reflexivity.
   Qed.
 
   Lemma G_bounds o : G o -> P_C17_object maxpkt maxblk o = true.
   Proof.
-    intros ([_ C] & S & _). unfold P_C17_object. apply andb_true_intro. split; apply N.leb_le; [exact C|].
+    intros ([_ C] & (S & _) & _). unfold P_C17_object. apply andb_true_intro. split; apply N.leb_le; [exact C|].
     exact (st_bnd _ _ S).
   Qed.
 End ObjW.
@@ -722,7 +1365,7 @@ Section Rcv.
   Variables (maxpkt maxblk smax : N).
   Hypothesis Hparse : forall d i, parse_fdt d = Some i -> inst_ok maxblk smax i = true.
 
-  Notation G := (G maxpkt maxblk smax).
+  Notation G := (G E maxpkt maxblk smax).
   Definition Gq (q : N * objrecv) : Prop := G (snd q).
   Definition fok (f : fdtrecv) : Prop :=
     match fr_inst f with Some i => inst_ok maxblk smax i = true | None => True end.
@@ -814,8 +1457,9 @@ Section Rcv.
   Lemma or_attach_G id i o c : G o -> inst_ok maxblk smax i = true ->
     G (snd (fst (or_attach E id (fi_files i) (fi_oti i) o c))).
   Proof.
-    intros [C Wo] Hi. unfold inst_ok in Hi. apply andb_prop in Hi. destruct Hi as [H1 H2].
-    split; [apply or_attach_cache_bounded; exact C|apply W_or_attach; assumption].
+    intros (C & Wo & Ho) Hi. unfold inst_ok in Hi. apply andb_prop in Hi. destruct Hi as [H1 H2].
+    split; [apply or_attach_cache_bounded; exact C|split; [apply W_or_attach; assumption|]].
+    intros Hfec. apply (HB_or_attach E maxblk smax); auto.
   Qed.
 
   Lemma attach_all_ok id i : inst_ok maxblk smax i = true -> forall tois r c att,
@@ -987,8 +1631,9 @@ Section Rcv.
 
   Lemma or_push_G p o c : G o -> pkt_ok maxpkt maxblk smax p = true -> G (fst (or_push E p o c)).
   Proof.
-    intros [C Wo] Hp. apply pkt_ok_elim in Hp. destruct Hp as (H1 & H2 & H3).
-    split; [apply or_push_cache_bounded; assumption|apply W_or_push; assumption].
+    intros (C & Wo & Ho) Hp. apply pkt_ok_elim in Hp. destruct Hp as (H1 & H2 & H3).
+    split; [apply or_push_cache_bounded; assumption|split; [apply W_or_push; assumption|]].
+    intros Hfec. apply (HB_or_push E maxblk smax); auto.
   Qed.
 
   Lemma push_obj_tail3_ok p r3 o c3 :
@@ -1010,7 +1655,7 @@ Section Rcv.
     destruct (get_obj r2 (a_toi p)) as [o|] eqn:Eg.
     - apply push_obj_tail3_ok; [exact R| |exact Hp]. exact (get_obj_G _ _ _ (proj1 (proj1 R)) Eg).
     - destruct R as [[F L] (Lc & Fc & Fr)].
-      destruct (create_attach_ok now (rv_fdt_current r2) (or_new (a_toi p) (cf_max_cache cfg)) c Fc (G_new _ _ _ _ _))
+      destruct (create_attach_ok now (rv_fdt_current r2) (or_new (a_toi p) (cf_max_cache cfg)) c Fc (G_new _ _ _ _ _ _))
         as (K1 & K2 & K3).
       destruct (create_attach E (rv_fdt_current r2) now (or_new (a_toi p) (cf_max_cache cfg)) c) as [[cur o1] c1].
       cbn [fst snd] in *. apply push_obj_tail3_ok; [|exact K3|exact Hp].
@@ -1096,7 +1741,7 @@ Section Rcv.
   Proof.
     intros [[F L] (Lc & _ & _)]. unfold P_C17_bounds, lenN_.
     apply andb_true_intro. split; [apply andb_true_intro; split|]; [|apply N.leb_le; lia ..].
-    apply forallb_forall. intros q Hq. rewrite Forall_forall in F. apply (G_bounds maxpkt maxblk smax). apply (F q Hq).
+    apply forallb_forall. intros q Hq. rewrite Forall_forall in F. apply (G_bounds E maxpkt maxblk smax). apply (F q Hq).
   Qed.
 End Rcv.
 
@@ -1107,9 +1752,36 @@ Theorem C17_bounds_proved : forall E parse_fdt cfg evs maxpkt maxblk,
   P_C17_bounds cfg maxpkt maxblk r = true.
 Proof.
   intros E parse_fdt cfg evs maxpkt maxblk (smax & He & Hp).
-  pose proof (recv_run_ok E parse_fdt cfg maxpkt maxblk smax Hp evs recv0 ctx0 (RI_recv0 cfg maxpkt maxblk smax) He) as R.
+  pose proof (recv_run_ok E parse_fdt cfg maxpkt maxblk smax Hp evs recv0 ctx0 (RI_recv0 E cfg maxpkt maxblk smax) He) as R.
   destruct (recv_run E parse_fdt cfg recv0 evs ctx0) as [[xs r] c]. cbn [fst snd] in R.
-  exact (RI_bounds cfg maxpkt maxblk smax r R).
+  exact (RI_bounds E cfg maxpkt maxblk smax r R).
+Qed.
+
+(* D47: in every reachable state (bounded inputs, decoders that return at most k * E bytes) every block decoder of
+   every object in flight satisfies held_b for the object's OTI, and an object has at most 4097 block decoders *)
+Theorem C17_held_proved : forall E parse_fdt cfg evs maxpkt maxblk,
+  C17_inputs_bounded parse_fdt evs maxpkt maxblk -> fec_out_ok E ->
+  let '(_, r, _) := recv_run E parse_fdt cfg recv0 evs ctx0 in
+  Forall (fun q => HB maxblk (snd q)) (rv_objects r).
+Proof.
+  intros E parse_fdt cfg evs maxpkt maxblk (smax & He & Hp) Hfec.
+  pose proof (recv_run_ok E parse_fdt cfg maxpkt maxblk smax Hp evs recv0 ctx0 (RI_recv0 E cfg maxpkt maxblk smax) He) as R.
+  destruct (recv_run E parse_fdt cfg recv0 evs ctx0) as [[xs r] c]. cbn [fst snd] in R.
+  destruct R as [[F _] _]. eapply Forall_impl; [|exact F]. intros q (_ & _ & H). exact (H Hfec).
+Qed.
+
+(* the accounting invariant itself: an object that is Receiving accounts exactly the declared sizes of its blocks *)
+Theorem C17_acct_proved : forall E parse_fdt cfg evs maxpkt maxblk,
+  C17_inputs_bounded parse_fdt evs maxpkt maxblk ->
+  let '(_, r, _) := recv_run E parse_fdt cfg recv0 evs ctx0 in
+  Forall (fun q => r_state (snd q) = Receiving -> r_alloc_size (snd q) = sumN' (map bd_size (r_blocks (snd q))))
+         (rv_objects r).
+Proof.
+  intros E parse_fdt cfg evs maxpkt maxblk (smax & He & Hp).
+  pose proof (recv_run_ok E parse_fdt cfg maxpkt maxblk smax Hp evs recv0 ctx0 (RI_recv0 E cfg maxpkt maxblk smax) He) as R.
+  destruct (recv_run E parse_fdt cfg recv0 evs ctx0) as [[xs r] c]. cbn [fst snd] in R.
+  destruct R as [[F _] _]. eapply Forall_impl; [|exact F]. intros q (_ & (S & _) & _) Hr.
+  destruct S as [(_ & Sz & _)|[(D & _) _]]; [exact Sz|congruence].
 Qed.
 
 (* the invariant holds after every prefix, hence in every reachable state *)
